@@ -119,7 +119,7 @@ def units():
          assigns=["__CPROVER_object_whole($0->value)"], solver=["--sat-solver", "cadical"], timeout=600, ensures={
         "set_writes_exactly_the_cell_of_that_coordinate": "FEQ($0->value[%s], *$2)" % IDXW,
         "set_leaves_every_other_cell_alone": "IMP(verif_gi < %s && verif_gi != %s, FEQ($0->value[verif_gi], g_cell))" % (N3, IDXW)})
-    return [U, adaptors_unit(), foreach_unit()]
+    return [U, adaptors_unit(), foreach_unit(), range_unit()]
 
 
 FSTUBS = """
@@ -157,6 +157,49 @@ def foreach_unit():
     F.fn("fe_box", pre_call="  g_k = 0; g_lo = o_@0.lower; g_hi = o_@0.upper; g_next = g_lo;\n", requires=["g_k == 0", "g_next.x == g_lo.x && g_next.y == g_lo.y && g_next.z == g_lo.z", "__verif_exc == 0", small("$0->lower"), small("$0->upper"), ext("$0->lower", "$0->upper"), GEQ % (("$0->lower",) * 3 + ("$0->upper",) * 3)],
          inline=["fe_range"], ensures=ENS, **acc)
     return F
+
+
+RSTUBS = """
+/* interface stubs for the pure virtuals of the array whose value range is taken. get: every request must lie inside the region
+ * [g_lo, g_hi); the value handed back is arbitrary (not NaN) per request, except at the ghost coordinate g_gc where it is the fixed
+ * g_gv; the running minimum / maximum of everything handed back is kept in ghost state */
+vec3i g_lo, g_hi, g_gc, g_dims; float g_gv, g_min, g_max; unsigned g_calls; unsigned char g_gseen;
+float a3f_get_stub(Array3Df *self, vec3i *w)
+{
+  __CPROVER_assert(w->x >= g_lo.x && w->x < g_hi.x && w->y >= g_lo.y && w->y < g_hi.y && w->z >= g_lo.z && w->z < g_hi.z, "RANGE only cells of the region are read");
+  float v = nondet_float();
+  __CPROVER_assume(v == v);
+  if (w->x == g_gc.x && w->y == g_gc.y && w->z == g_gc.z) { v = g_gv; g_gseen = 1; }
+  if (g_calls == 0 || v < g_min) g_min = v;
+  if (g_calls == 0 || v > g_max) g_max = v;
+  if (g_calls < 1000000u) g_calls++;
+  return v;
+}
+vec3i a3f_size_stub(Array3Df *self) { return g_dims; }
+"""
+
+
+def range_unit():
+    """Array3D::getValueRange(begin, end) / getValueRange(): bounds every value of the region, tightly -- BOUNDED (extents of at most 2 per axis)"""
+    R = Unit("c17_range", "units/c17_range.cpp", stubs=RSTUBS, opts=dict(stub_bodies=["a3f_get_stub", "a3f_size_stub"],
+             virtual_models={"rkcommon::array3D::Array3D<float>::get": "a3f_get_stub", "rkcommon::array3D::Array3D<float>::size": "a3f_size_stub"}))
+    R.stub("Array3D<float>::get / size", "interface stubs: get asserts the request lies in the region, hands back an arbitrary non-NaN value (a fixed one at the ghost coordinate) and keeps the running min/max in ghost state")
+    EXT = 2
+    pre = "  g_calls = 0; g_gseen = 0; g_gv = nondet_float(); __CPROVER_assume(g_gv == g_gv); g_gc.x = nondet_int(); g_gc.y = nondet_int(); g_gc.z = nondet_int();\n"
+    INR = "(g_gc.x >= g_lo.x && g_gc.x < g_hi.x && g_gc.y >= g_lo.y && g_gc.y < g_hi.y && g_gc.z >= g_lo.z && g_gc.z < g_hi.z)"
+    ENS = {"every_cell_of_the_region_is_read": "__verif_exc == 0 && IMP(%s, g_gseen != 0)" % INR,
+           "range_bounds_every_value_of_the_region": "IMP(%s, RET.lower <= g_gv && g_gv <= RET.upper)" % INR,
+           "range_is_tight_lower_and_upper_are_values_of_the_region": "g_calls >= 1 && RET.lower == g_min && RET.upper == g_max"}
+    acc = dict(unwind=EXT + 2, timeout=420, assigns=["g_min", "g_max", "g_calls", "g_gseen", "__verif_exc"], solver=["--sat-solver", "cadical"])
+    NE = "g_hi.x > g_lo.x && g_hi.y > g_lo.y && g_hi.z > g_lo.z && g_hi.x <= g_lo.x + %d && g_hi.y <= g_lo.y + %d && g_hi.z <= g_lo.z + %d" % (EXT, EXT, EXT)
+    SM = "g_lo.x >= -3 && g_lo.x <= 3 && g_lo.y >= -3 && g_lo.y <= 3 && g_lo.z >= -3 && g_lo.z <= 3"
+    R.fn("vr_range", pre_call=pre + "  g_lo = o_@1; g_hi = o_@2;\n",
+         requires=["g_calls == 0 && g_gseen == 0 && __verif_exc == 0 && g_gv == g_gv", SM, NE,
+                   "g_lo.x == $1->x && g_lo.y == $1->y && g_lo.z == $1->z && g_hi.x == $2->x && g_hi.y == $2->y && g_hi.z == $2->z"], ensures=ENS, **acc)
+    R.fn("vr_all", pre_call=pre + "  g_lo.x = 0; g_lo.y = 0; g_lo.z = 0; g_dims.x = nondet_int(); g_dims.y = nondet_int(); g_dims.z = nondet_int(); g_hi = g_dims;\n",
+         requires=["g_calls == 0 && g_gseen == 0 && __verif_exc == 0 && g_gv == g_gv", SM, "g_lo.x == 0 && g_lo.y == 0 && g_lo.z == 0 && g_hi.x == g_dims.x && g_hi.y == g_dims.y && g_hi.z == g_dims.z", NE],
+         inline=["vr_range"], ensures=ENS, **acc)
+    return R
 
 
 ASTUBS = """
@@ -202,12 +245,12 @@ def adaptors_unit():
 
 
 META = dict(
-    technique='z3 integer-mode VCs with machine-range obligations on the extracted index maps + CBMC 6.11 function contracts (iterators, adaptors against a recording stub); bounded unwinding for get/set cells and for_each',
+    technique='z3 integer-mode VCs with machine-range obligations on the extracted index maps + CBMC 6.11 function contracts (iterators, adaptors against a recording stub); bounded unwinding for get/set cells, for_each and getValueRange',
     level="proof",
     level_text="flatten/reshape (2-D, 3-D) and longIndex/coordsOf are proved mutually inverse on coordinates inside the extent and on [0,total), flatten < total, for EVERY extent (unbounded, z3 over the integers on VCs generated from the extracted code), together with the obligation that every intermediate value and every conversion fits its machine type (so machine arithmetic equals mathematical arithmetic: 'computed in 64 bits without overflow' is itself proved, and e.g. a 32-bit temporary for a row number is refuted). Iterator operations (++, ==, jump_to, current, begin, dimensions) have bit-precise CBMC contracts. The shifted, sub-box, accessor and multi-slice adaptors (unit c17_adaptors) are proved, against a recording interface stub of the underlying Array3D, to ask exactly one underlying array for exactly the cell their definition names (shift wrapped into the extent; offset by the box origin; same cell with value conversion; cell (x,y,0) of the slice selected by the clamped z) and to return its value. array3D::for_each (range, size and box forms; unit c17_foreach) is checked, BOUNDED to extents of at most 3 per axis, against a probe functor: every coordinate of the region is visited exactly once, in flattened order (x fastest), and nothing outside it.",
-    level_note="Trusted: clang AST, cxx2c, mathvc evaluator, z3; CBMC for the iterator contracts. ActualArray3D::get/set are checked BOUNDED (extents of at most 4 per axis): get reads the cell at the clamped coordinate, set writes exactly the cell of its coordinate and no other (so get returns the value last set there). NOT under contract: getValueRange, Array3DRepeater, numElements of the adaptors.",
+    level_note="Trusted: clang AST, cxx2c, mathvc evaluator, z3; CBMC for the iterator contracts. ActualArray3D::get/set are checked BOUNDED (extents of at most 4 per axis): get reads the cell at the clamped coordinate, set writes exactly the cell of its coordinate and no other (so get returns the value last set there). Array3D::getValueRange(begin,end) and getValueRange() (unit c17_range) are checked BOUNDED (non-empty regions of at most 2 cells per axis) against a recording get/size stub: only cells of the region are read, every cell of it is read, the result bounds every value read and its two ends are the minimum and maximum of the values read (tight); an EMPTY region is outside that contract (the code then returns [get(begin), get(begin)]). NOT under contract: Array3DRepeater, numElements of the adaptors.",
     assumptions=["extent with total < 2^64 (multidim_index_sequence), positive int extents (array3D)"],
-    bounded=["ActualArray3D get/set: extents of at most 4 per axis", "for_each (unit c17_foreach): region extents of at most 3 per axis, coordinates in [-3,3], unwind 5"],
-    unverified=["Array3DRepeater (mirrored repetition; not named by the property)", "adaptor numElements", "getValueRange (a bounded check with 3x3x3 cells ran CBMC out of memory: 125 unwound bodies with 64-bit index products)"],
+    bounded=["ActualArray3D get/set: extents of at most 4 per axis", "for_each (unit c17_foreach): region extents of at most 3 per axis, coordinates in [-3,3], unwind 5", "getValueRange (unit c17_range): non-empty regions of at most 2 cells per axis, lower corner in [-3,3], unwind 4 (3 cells per axis did not finish in 900 s)"],
+    unverified=["Array3DRepeater (mirrored repetition; not named by the property)", "adaptor numElements", "getValueRange on regions larger than 2x2x2 and on empty regions"],
     trusted_extra=["lib/mathvc.py symbolic evaluator", "z3 5.1.0"],
 )
